@@ -250,7 +250,7 @@ static int        _attempt_range_join(hostlist_t, int);
 static int        _is_bracket_needed(hostlist_t, int);
 
 static hostlist_iterator_t hostlist_iterator_new(void);
-static void               _iterator_advance(hostlist_iterator_t);
+static int                _iterator_advance(hostlist_iterator_t);
 static void               _iterator_advance_range(hostlist_iterator_t);
 
 static int hostset_find_host(hostset_t, const char *);
@@ -2298,20 +2298,27 @@ void hostlist_iterator_destroy(hostlist_iterator_t i)
     free(i);
 }
 
-static void _iterator_advance(hostlist_iterator_t i)
+/* Advance iterator i to the next host. Returns 0, leaving the iterator on
+ * the last host it returned, when there is no next host: hosts pushed onto
+ * the list later are then found by the next call. The range pointer is
+ * reloaded first since it is stale (NULL) if the list was empty when the
+ * iterator was created or reset.
+ */
+static int _iterator_advance(hostlist_iterator_t i)
 {
     assert(i != NULL);
     assert(i->magic == HOSTLIST_MAGIC);
     if (i->idx > i->hl->nranges - 1)
-        return;
-    if (++(i->depth) > (i->hr->hi - i->hr->lo)) {
+        return 0;
+    i->hr = i->hl->hr[i->idx];
+    if (i->depth + 1 > (i->hr->hi - i->hr->lo)) {
+        if (i->idx + 1 > i->hl->nranges - 1)
+            return 0;
         i->depth = 0;
-        if (++i->idx >= i->hl->size) {
-            i->hr = NULL;
-            return;
-        }
-        i->hr = i->hl->hr[i->idx];
-    }
+        i->hr = i->hl->hr[++i->idx];
+    } else
+        i->depth++;
+    return 1;
 }
 
 /* advance iterator to end of current range (meaning within "[" "]")
@@ -2343,9 +2350,8 @@ char *hostlist_next(hostlist_iterator_t i)
     assert(i != NULL);
     assert(i->magic == HOSTLIST_MAGIC);
     LOCK_HOSTLIST(i->hl);
-    _iterator_advance(i);
 
-    if (i->idx > i->hl->nranges - 1) {
+    if (!_iterator_advance(i)) {
         UNLOCK_HOSTLIST(i->hl);
         return NULL;
     }
